@@ -16,6 +16,9 @@ structure Buf where
   cur : Nat
 deriving Repr, DecidableEq
 
+/-- `c != '\\n'` (named so that `simp` does not rewrite the lambda) -/
+def notNl (c : Char) : Bool := c != '\n'
+
 def Buf.before (b : Buf) : Text := b.text.take b.cur
 def Buf.after (b : Buf) : Text := b.text.drop b.cur
 
@@ -34,8 +37,8 @@ def setDocument (_b : Buf) (t : Text) (c : Int) : Option Buf :=
 
 /-- text of the current line before / after the cursor -/
 def lineBefore (b : Buf) : Text :=
-  (b.before.reverse.takeWhile (· ≠ '\n')).reverse
-def lineAfter (b : Buf) : Text := b.after.takeWhile (· ≠ '\n')
+  (b.before.reverse.takeWhile notNl).reverse
+def lineAfter (b : Buf) : Text := b.after.takeWhile notNl
 def currentLine (b : Buf) : Text := lineBefore b ++ lineAfter b
 
 def leadingWs (isSpace : Char → Bool) (b : Buf) : Text :=
@@ -47,10 +50,8 @@ def insertText (b : Buf) (data : Text) (overwrite move : Bool) : Buf :=
   let ocpos := b.cur
   let text :=
     if overwrite then
-      let ov := (otext.drop ocpos).take data.length
-      let ov := match findChar? '\n' ov with
-        | some i => ov.take i
-        | none => ov
+      -- `ov[:ov.find("\n")]` when a newline occurs in `ov`, else `ov`
+      let ov := ((otext.drop ocpos).take data.length).takeWhile notNl
       otext.take ocpos ++ data ++ otext.drop (ocpos + ov.length)
     else otext.take ocpos ++ data ++ otext.drop ocpos
   let cpos := if move then b.cur + data.length else b.cur
